@@ -194,7 +194,9 @@ DInvalidate(su, un, c, d, l, q) ==
       S == Spread(c, U)
   IN [su |-> [p \in Paths |-> [x \in Locs |-> IF x # l THEN su[p][x]        \* nothing on other locations
                                               ELSE su[p][x] \ S]],         \* copies beneath q are gone, related ones undecided
-      un |-> [p \in Paths |-> [x \in Locs |-> un[p][x] \/ (x = l /\ (su[p][x] \cap (S \ U)) # {})]],
+      \* beneath q everything is decided again when every path related to p lies beneath q as well
+      un |-> [p \in Paths |-> [x \in Locs |-> IF x = l /\ p \in U /\ Class(c, p) \subseteq U THEN FALSE
+                                              ELSE un[p][x] \/ (x = l /\ (su[p][x] \cap (S \ U)) # {})]],
       d |-> {x \in d : ~(x[2] = l /\ x[1] \in S)}]
 
 ---------------------------------------------------------------------------
